@@ -65,16 +65,27 @@ def contracts():
         final(endpoint).dir == old(endpoint).dir, final(endpoint).url == old(endpoint).url, final(endpoint).name == old(endpoint).name,
 """)
     c["get_client"] = FnSpec(ret="r", sig="""
-    ensures r matches Ok(c) ==> c.roots@ == roots_content(root_certs@) && !c.insecure@, //@C18.client_roots_exact
+    ensures
+        // the client trusts, beyond the system store, certificates of the configured files only - and at least the first
+        // certificate of every configured file: a file that holds none (unreadable, malformed) is an error
+        r matches Ok(c) ==> roots_match(c.roots@, roots_content(root_certs@)) && !c.insecure@, //@C18.client_roots_are_the_configured_files
 """, loops={1: """
-    invariant client_builder.roots@ == roots_content(root_certs@.take(it.index@)), !client_builder.insecure@,
+    invariant roots_match(client_builder.roots@, roots_content(root_certs@.take(it.index@))), !client_builder.insecure@,
 """}, at=[("before", "root_certs.iter()", 1, "it:"),
+          ("loop_start", None, 1, "let ghost cb0 = client_builder;"),
           ("before_stmt", "for crt_file", 1, "proof { assert(roots_content(root_certs@.take(0)) =~= Seq::<Seq<u8>>::empty()); }"),
           ("loop_end", None, 1, """
             proof {
                 let i = it.index@;
+                let f0 = roots_content(root_certs@.take(i));
+                let f1 = roots_content(root_certs@.take(i + 1));
                 assert(root_certs@.take(i + 1) =~= root_certs@.take(i).push(root_certs@[i]));
-                assert(roots_content(root_certs@.take(i + 1)) =~= roots_content(root_certs@.take(i)).push(crate::rootfs::file_content(root_certs@[i]@)));
+                assert(f1 =~= f0.push(crate::rootfs::file_content(root_certs@[i]@)));
+                let file = crate::rootfs::file_content(root_certs@[i]@);
+                assert(Seq::<u8>::empty() + file =~= file);
+                let r0 = cb0.roots@; let r1 = client_builder.roots@;
+                assert(reqwest::pem_certs(file).to_set().contains(reqwest::pem_certs(file)[0]));
+                lemma_roots_step(cb0.roots@, client_builder.roots@, f0, crate::rootfs::file_content(root_certs@[i]@));
             }"""),
           ("before_stmt", "Ok(client_builder.build", 1, "proof { assert(root_certs@.take(root_certs@.len() as int) =~= root_certs@); }")],
         rewrites=[("T-PARSE", r"(?P<e>\"[^\"]*\"|\w+)\.parse\(\)", r"crate::reqwest::header::parse_header_value(&\g<e>)", None)])
@@ -90,7 +101,7 @@ def contracts():
         r is Ok ==> final(w).net.last_success && final(w).net.posts > old(w).net.posts, //@C08.ok_is_2xx
         r matches Ok(v) ==> v.body@ == final(w).net.last_body, //@C02.body_is_response_body
 """, loops={1: "    invariant" + LOOP_NET_INV + DB_PRE + """
-        client.roots@ == w.net.trust_roots, !client.insecure@,
+        roots_match(client.roots@, w.net.trust_roots), !client.insecure@,
         w.net.posts == old(w).net.posts + it.index@, //@C08.one_transmission_per_round
         crate::DEFAULT_HTTP_FAIL_NB_RETRY == 10, //@C08.retry_constant_is_10
         // a further round is reached only after a non-2xx answer whose problem document names a recoverable type
@@ -279,6 +290,37 @@ pub open spec fn nonce_view(n: Option<String>) -> Option<Seq<char>> {
 pub open spec fn nonce_sync(e: Endpoint, w: World) -> bool { nonce_view(e.nonce) == w.net.latest_nonce }
 pub open spec fn roots_content(files: Seq<String>) -> Seq<Seq<u8>> {
     files.map_values(|s: String| crate::rootfs::file_content(s@))
+}
+// the certificates held by the configured files, and the first certificate of each
+pub open spec fn all_certs(files: Seq<Seq<u8>>) -> Set<Seq<u8>>
+    decreases files.len()
+{
+    if files.len() == 0 { Set::empty() } else { all_certs(files.drop_last()).union(reqwest::pem_certs(files.last()).to_set()) }
+}
+pub open spec fn first_certs(files: Seq<Seq<u8>>) -> Set<Seq<u8>>
+    decreases files.len()
+{
+    if files.len() == 0 { Set::empty() } else { first_certs(files.drop_last()).insert(reqwest::pem_certs(files.last())[0]) }
+}
+pub open spec fn all_nonempty(files: Seq<Seq<u8>>) -> bool
+    decreases files.len()
+{
+    files.len() == 0 || (all_nonempty(files.drop_last()) && reqwest::pem_certs(files.last()).len() >= 1)
+}
+// every trusted extra root is a certificate of one of the configured files, and every configured file contributes
+// at least its first certificate (so a file without any certificate cannot be passed over)
+pub open spec fn roots_match(roots: Set<Seq<u8>>, files: Seq<Seq<u8>>) -> bool {
+    roots.subset_of(all_certs(files)) && first_certs(files).subset_of(roots) && all_nonempty(files)
+}
+// one loop round: the builder gained certificates of `file` only, among them its first one
+pub proof fn lemma_roots_step(r0: Set<Seq<u8>>, r1: Set<Seq<u8>>, files: Seq<Seq<u8>>, file: Seq<u8>)
+    requires roots_match(r0, files), reqwest::pem_certs(file).len() >= 1,
+        r0.subset_of(r1), r1.subset_of(r0.union(reqwest::pem_certs(file).to_set())), r1.contains(reqwest::pem_certs(file)[0]),
+    ensures roots_match(r1, files.push(file))
+{
+    let f1 = files.push(file);
+    assert(f1.drop_last() =~= files);
+    assert(f1.last() == file);
 }
 pub open spec fn recoverable_body(b: Seq<char>) -> bool {
     json_spec::<HttpApiError>(b) matches Some(e) && is_recoverable_spec(acme_type_of(e))
